@@ -38,11 +38,18 @@ Proof.
   rewrite H. cbn [negb]. rewrite !andb_false_r. reflexivity.
 Qed.
 
+Lemma declared_not_input_only c x : In x (fn_nonlocals c) \/ In x (fn_globals c) -> in_input_only c x = false.
+Proof.
+  intros H. unfold in_input_only. cbn [input_only_gen smem existsb fn_get].
+  destruct H as [H|H]; apply mem_In in H; rewrite H; cbn [negb orb]; rewrite ?orb_true_r; cbn [negb];
+    rewrite ?andb_false_r; reflexivity.
+Qed.
+
 Lemma state_complete_lemma c x :
   In x (modified c) ->
   (In x (live_out c) -> exists i, index_of x (state c) = Some i /\ i < nouts c)
   /\ (In x (live_in c) -> In x (state c))
-  /\ (In x (fn_nonlocals c) \/ In x (fn_globals c) -> In x (state c)).
+  /\ (In x (fn_nonlocals c) \/ In x (fn_globals c) -> exists i, index_of x (state c) = Some i /\ i < nouts c).
 Proof.
   intros Hm. assert (Part : forall y, In y (basic c) -> In y (state c)).
   { intros y Hy. unfold state, outs, ins. apply in_or_app.
@@ -52,7 +59,9 @@ Proof.
     unfold outs. apply filter_In. split; [apply basic_spec; auto|].
     rewrite (live_out_not_input_only _ _ Ho). reflexivity.
   - intros Hi. apply Part, basic_spec; auto.
-  - intros Hn. apply Part, basic_spec; [exact Hm | tauto].
+  - intros Hn. rewrite nouts_outs. unfold state. apply index_of_app_l.
+    unfold outs. apply filter_In. split; [apply basic_spec; [exact Hm | tauto]|].
+    rewrite (declared_not_input_only _ _ Hn). reflexivity.
 Qed.
 
 (* nothing else is carried: a state variable is a modified name that is live or declared *)
